@@ -12,7 +12,7 @@ SPEC = {
     "claim": {
         "category": "exploration",
         "technique": "generated concurrent programs (rapidcheck byte-decoded thread program sets) executed under ThreadSanitizer, plus a differential oracle: every thread's result digest must equal the digest of the same program run alone",
-        "text": "Each case builds a pool of immutable strings and buffers of every size class and starts 2..8 threads behind a barrier; each thread runs 4 rounds of a generated list of 5..60 operations drawn from 46 operation shapes covering const members on the shared objects, conversions, codecs, every formatting sink (incl. floating-point renderings of 64+ characters) and mutation of thread-local strings, buffers and string_streams. Any ThreadSanitizer report, or a thread obtaining results different from a solo run of the same program, is a violation.",
+        "text": "Each case builds a pool of immutable strings and buffers of every size class and starts 2..8 threads behind a barrier; each thread runs 4 rounds of a generated list of 5..60 operations drawn from 48 operation shapes covering const members on the shared objects, conversions, codecs, every formatting sink (incl. floating-point renderings of 64+ characters) and mutation of thread-local strings, buffers and string_streams. Any ThreadSanitizer report, or a thread obtaining results different from a solo run of the same program, is a violation.",
         "level_note": "Observed schedules plus TSan's happens-before closure; interleavings are not enumerated and races inside uninstrumented libc are visible only through interceptors or wrong results.",
     },
 }
